@@ -151,7 +151,7 @@ def gen_cases(ctx):
     # scripted: an all-NUL key holding 97% of the stream (a packed integer 0) must be reported first
     yield {"type": "history", "cfg": {"kind": "hh", "width": 2, "depth": 2, "max_key_len": 4}, "n": 1,
            "events": [[0, ["add", "00000000", 97]], [0, ["add", "61", 2]], [0, ["add", "", 1]]]}
-    n = 1500 if ctx.quick else 10**9
+    n = 900 if ctx.quick else 10**9
     for _ in range(n):
         yield H.gen_history_case(rng, ctx, big=0.01, zero=0.05)
 
